@@ -147,5 +147,39 @@ fn main() {
         }
         check_text(t, &text);
     });
+    // scale: long entry sequences (periodic walks through the S1 kinds)
+    {
+        let mut t = Tally::new();
+        for n in [64usize, 65, 1000, 5000] {
+            for (stride, offset) in [(1usize, 0usize), (3, 1), (5, 2), (7, 3), (11, 0), (4, 3)] {
+                let mut text = vec![];
+                for i in 0..n {
+                    // every third entry is drawn from the small ignore/file/cwd alphabet to keep the flags busy
+                    let line: &[u8] = if i % 3 == 0 { S2[(i / 3 * stride + offset) % S2.len()] } else { S1[(i * stride + offset) % S1.len()] };
+                    text.extend_from_slice(line);
+                    text.push(b'\n');
+                }
+                t.states += 1;
+                t.transitions += n as u64;
+                check_text(&mut t, &text);
+            }
+        }
+        for p in 0..=300usize {
+            for gap in [&b""[..], b"@comment between\n", b"@cwd /gap\n@mode 1\n"] {
+                let mut text = vec![];
+                for i in 0..p {
+                    text.extend_from_slice(format!("f{}\n", i).as_bytes());
+                }
+                text.extend_from_slice(b"@ignore\n");
+                text.extend_from_slice(gap);
+                text.extend_from_slice(b"+IGNORED\nkept1\n@ignore\n@ignore\n+IGNORED2\nkept2\n");
+                t.states += 1;
+                t.transitions += p as u64 + 8;
+                check_text(&mut t, &text);
+            }
+        }
+        run.bound("scale: 24 entry sequences of 64..5000 entries (periodic walks through both alphabets); an @ignore/file pair (adjacent, and separated by other commands) after every number 0..300 of leading files");
+        run.merge(t);
+    }
     run.finish();
 }
